@@ -16,5 +16,90 @@ CLAIMED = {
                     "cancellation decides once; result tuple has every input's value at its own position; maketuple total for every length",
             "note": BASE_NOTE + "; finite-set cardinality axioms (card) trusted; TUPLE_CLASSES module initialisation shape checked syntactically; f_traverse/f_sequence wrappers not yet under contract",
             "design_ref": "DESIGN.md section 5 C15"},
+    "C01": {"text": "per-layer outcome contracts proved for every layer's real code (Map/FlatMap _delegate_resolved, Retry _delegate_callback/_submit_now/"
+                    "submit_retry, Poll _register_poll/_run_poll_fn/_delegate_resolved, Throttle _do_submit/submit, Timeout submit_timeout, CancelOnShutdown "
+                    "submit, transparent delegation for the *Future subclasses): each layer's future takes exactly its delegate's outcome object / the "
+                    "user function's outcome, the callable gets exactly the submitted arguments, one resolution per future (set_* units), callbacks "
+                    "exactly once (add_done_callback / _me_invoke_callbacks); with_* / bind units show a chain is the nesting of these layers",
+            "note": BASE_NOTE + "; the theorem about a whole stack is the composition of the per-layer contracts (LEM(compose), DESIGN A.3) - stated, not mechanised; the sync / thread-pool base is stdlib code under the assumed EXEC contract",
+            "design_ref": "DESIGN.md section 5 C01"},
+    "C02": {"text": "Future protocol of every _Future subclass proved on the real cancel / add_done_callback / _me_invoke_callbacks / set_result / "
+                    "set_exception for each concrete receiver class: state transitions only under _me_lock and only PENDING->terminal (static), "
+                    "cancel() answer agrees with the state when the lock is released, waiters are notified on cancel, callbacks run exactly once "
+                    "outside the lock including ones added concurrently, combinator outputs (zip / and / or) are proper futures; every function that "
+                    "hands a future to the caller hands out a library future (static future-handout)",
+            "note": BASE_NOTE + "; RUNNING is never entered by library futures (precondition proved by the static transition obligations)",
+            "design_ref": "DESIGN.md section 5 C02"},
+    "C03": {"text": "no-lost-future as safety obligations: every path of every delegate callback / loop iteration that observes finished underlying "
+                    "work either resolves the library future, or leaves it registered with a worker whose wake-up event is set afterwards (W1/W2 wake "
+                    "orders, static), or hands it to a still-pending delegate with the callback registered; delegates cancelled by someone else end the "
+                    "future cancelled; shutdown paths resolve or cancel what they drop; constructors start the worker that serves the queue",
+            "note": BASE_NOTE + "; liveness proper (the woken worker is eventually scheduled, user functions return) is outside deductive safety reasoning and is assumed (A-FAIR); iteration units are loop bodies cut at the loop head with the region invariant as induction hypothesis",
+            "design_ref": "DESIGN.md section 5 C03"},
+    "C04": {"text": "lock-order obligations over the real call graph: the acquired-while-held relation of all library locks is acyclic, no opaque (user / delegate) "
+                    "call happens under a non-re-entrant lock, callbacks are invoked outside _me_lock, shutdown / cancel paths take locks in the global order; "
+                    "unit-level: no blocking call while a lock is held in cancel / add_done_callback / set_* / shutdown of every class",
+            "note": BASE_NOTE + "; absence of deadlock with USER locks or a bounded delegate pool saturated by nested submission is outside the contracts (depends on the delegate); RLock re-entrancy is modelled, fairness is not",
+            "design_ref": "DESIGN.md section 5 C04"},
+    "C05": {"text": "retry accounting proved on the real policy and executor code: should_retry / sleep_time are exactly the documented functions of (attempt, "
+                    "exception class, max_attempts, sleep, exponent, max_sleep) for all numeric inputs; eval_policy consults the policy once per finished attempt; "
+                    "_delegate_callback increments the attempt exactly once, re-queues with when = now + sleep_time, never two attempts of one job in flight; "
+                    "_get_next_job returns the earliest due job and never one whose time has not come; queue append/pop keep the job multiset",
+            "note": BASE_NOTE + "; time is an uninterpreted monotone clock (A-CLOCK); floating-point back-off is treated as real arithmetic (machine arithmetic assumed mathematical)",
+            "design_ref": "DESIGN.md section 5 C05"},
+    "C06": {"text": "cancel contracts proved per class: cancel()==True only on paths where the callable has not been and will not be handed to the delegate "
+                    "(throttle / retry queue removal under the lock, delegate.cancel() consulted first), stop_retry set under the region lock so no later attempt "
+                    "is scheduled, cancellation is propagated to the delegate / poll cancel_fn / remaining inputs of and/or; f_nocancel never asks the inner future",
+            "note": BASE_NOTE + "; 'the work never starts' is relative to the delegate's own cancel() contract (FUT: True => its callable never runs)",
+            "design_ref": "DESIGN.md section 5 C06"},
+    "C07": {"text": "throttle region invariant proved: under the lock, running count <= count at every release, FIFO hand-over in the submit loop iteration, "
+                    "a finished delegate future decrements once and wakes the loop (W2), _eval_throttle total for int / None / callable counts, "
+                    "block_until_ready and cancel keep queue and gauge consistent",
+            "note": BASE_NOTE + "; 'no idle capacity' is the safety half (a free slot with queued work implies the event is set); scheduling of the woken thread is A-FAIR",
+            "design_ref": "DESIGN.md section 5 C07"},
+    "C08": {"text": "poll contracts proved: descriptor set = exactly the registered, unresolved futures (register / deregister / _clear_executor / __init__ order), "
+                    "the poll function runs only on the poll thread with the set snapshot, first yield wins (later yields are no-ops), a poll_fn fault fails exactly "
+                    "the polled futures, cancel_fn consulted under contract, wake orders of the poll event (static)",
+            "note": BASE_NOTE + "; 'prompt polls' is the wake-order obligation + A-FAIR; interval timing uses the uninterpreted clock",
+            "design_ref": "DESIGN.md section 5 C08"},
+    "C09": {"text": "timeout contracts proved: _partition_jobs splits exactly at now (never early), each job is cancelled at most once and removed, jobs of finished "
+                    "futures are dropped by _on_future_done, the loop iteration waits no longer than the earliest deadline (wake order on new earlier job)",
+            "note": BASE_NOTE + "; 'at the deadline' = the loop is awake at the deadline (W2) + A-FAIR; clock uninterpreted monotone",
+            "design_ref": "DESIGN.md section 5 C09"},
+    "C10": {"text": "CancelOnShutdown contracts proved: every accepted future is in the tracked set before submit returns (or already finished), shutdown cancels "
+                    "every tracked future exactly once, the shutdown gate orders submit against shutdown (no future accepted after the sweep), lock order with the delegate",
+            "note": BASE_NOTE,
+            "design_ref": "DESIGN.md section 5 C10"},
+    "C11": {"text": "shutdown contracts proved for all 8 executor classes: the flag is set before anything else, submit after shutdown raises RuntimeError without "
+                    "touching the delegate, second shutdown is a no-op on library state, delegate.shutdown(wait) is propagated, worker threads are woken and joined when "
+                    "wait=True, worker loops exit on the flag, interpreter-exit hook sets every event",
+            "note": BASE_NOTE + "; join() returning relies on the loop-exit obligations + A-FAIR",
+            "design_ref": "DESIGN.md section 5 C11"},
+    "C12": {"text": "reclamation as heap-shape obligations: worker threads get only a weak reference (constructor units), loops drop the strong reference before every wait, "
+                    "finished futures drop _executor / _delegate references (_clear_executor units), queues forget resolved jobs, weakref death callback references only the event",
+            "note": BASE_NOTE + "; garbage collection itself (refcount reaching zero => finaliser runs) is CPython behaviour, assumed",
+            "design_ref": "DESIGN.md section 5 C12"},
+    "C16": {"text": "f_apply proved by induction over the input list on the real code: _wrap_args lists inputs in order with a marker no keyword can equal (static: ARGS is a fresh object() "
+                    "compared by identity), the recursion consumes the first input first and passes on the rest in order, the curried closure puts a positional value in front / a keyword under "
+                    "its own name in a copy, fn is called exactly once in the base case; the ensure_futures wrapper is a pure pass-through",
+            "note": BASE_NOTE + "; relies on the C13 contracts of with_map / with_flat_map (wrap(f).with_map(g)() = map(f, g)) at the call sites; the induction itself (LEM(fold)) is stated, its base and step are the proved units",
+            "design_ref": "DESIGN.md section 5 C16"},
+    "C17": {"text": "each of the 28 forwarded dunder methods is proved to be exactly the Python operation applied to (result(timeout), operands) - operators are uninterpreted, so this holds "
+                    "for all values; failed futures raise their own exception; bool / repr / eq / hash never touch the future (static surface); NoCancelFuture.cancel is constant False with no side effect",
+            "note": BASE_NOTE + "; plus a BOUNDED differential run over a finite operand corpus on CPython (labelled bounded, not counted as proved)",
+            "design_ref": "DESIGN.md section 5 C17"},
+    "C18": {"text": "fault containment: for every unit with an opaque user call (map fn / error_fn, retry policy, throttle count, poll_fn / cancel_fn, done callbacks) the exception path is "
+                    "explored: the exception ends in that call's own future(s) or is logged, library invariants are re-established before the lock is released, worker loop iterations never "
+                    "raise out of the loop (EX obligations), the executor_loop wrapper contract",
+            "note": BASE_NOTE + "; BaseException subclasses other than Exception (KeyboardInterrupt in a worker) follow A-EXC",
+            "design_ref": "DESIGN.md section 5 C18"},
+    "C19": {"text": "bind / flat_bind / with_* on executors and bound callables proved equivalent to the executor chain: BoundCallable keeps its own executor and function, "
+                    "__call__ submits fn with exactly the call's arguments, with_*(bound) = bind(with_*(executor)), names are inherited by every new layer and reach the thread name",
+            "note": BASE_NOTE,
+            "design_ref": "DESIGN.md section 5 C19"},
+    "C20": {"text": "metric ghost counters: every gauge increment on a path is matched by exactly one decrement on every path that ends the counted condition (queue gauges of throttle / retry, "
+                    "in-progress gauges of executors and futures), counters are bumped once per event (submit, shutdown, future outcome by kind), label values are the layer type",
+            "note": BASE_NOTE + "; the prometheus client is abstracted as labelled integer cells (inc/dec); sync / thread-pool executor gauges are not under contract yet",
+            "design_ref": "DESIGN.md section 5 C20"},
 }
 NOT_APPLICABLE_REASON = {}
